@@ -76,6 +76,12 @@ func (r *Rand) randL(p, span int) Dec {
 		c = new(big.Int)
 	case 1:
 		c = r.near2()
+	case 2:
+		if r.bool() {
+			c, _ = r.wordEdge(r.between(1, p+1))
+		} else {
+			c = r.digits(n)
+		}
 	default:
 		c = r.digits(n)
 	}
